@@ -87,34 +87,46 @@ def judge(case):
     viol = []
     def v(sym, detail): viol.append({"kind": sym, "detail": detail})
     if case["kind"] == "unary":
-        x = xs_for(case); op = case["op"]
-        T = sg.Tensor(x.copy(), requires_grad=True)
-        if op == "bce_logits":
-            tg = np.full(x.shape, case["target"], dtype=x.dtype)
-            y = F.binary_cross_entropy_with_logits(T, sg.Tensor(tg))
-            rv, rd = ref_unary(op, x, float(case["target"]))
-        else:
-            y = getattr(F, op)(T); rv, rd = ref_unary(op, x)
-        y.backward(sg.Tensor(np.ones(x.shape, dtype=x.dtype)))
-        val = np.asarray(y.data, dtype=np.float64); grd = np.asarray(T.grad.data, dtype=np.float64)
-        tol = TOLF * np.maximum(1.0, np.abs(x.astype(np.float64)))
-        name = op + ("" if case["target"] is None else f"[t={case['target']}]")
-        for what, got, ref in (("forward", val, rv), ("backward", grd, rd)):
-            bad = ~np.isfinite(got)
-            if bad.any():
-                i = int(np.argmax(bad)); v(f"{name}:{what}:nonfinite", f"{int(bad.sum())} inputs; e.g. x={x[i]!r} ({case['dtype']}) -> {got[i]}, exact {ref[i]:.9g}")
-            err = np.abs(got - ref)
-            if what == "backward" and op == "selu":
-                err = np.where(x == 0, 0.0, err)        # kink at 0: any slope between the one-sided derivatives
-                lo, hi = SCALE * min(1.0, ALPHA), SCALE * max(1.0, ALPHA)
-                z = (x == 0) & np.isfinite(got)
-                if z.any() and (np.any(got[z] < lo - 1e-6) or np.any(got[z] > hi + 1e-6)):
-                    v(f"{name}:backward:not-a-subgradient-at-0", f"slope {got[z][0]} outside [{lo},{hi}]")
-            bad = np.isfinite(got) & (err > tol)
-            if bad.any():
-                i = int(np.argmax(np.where(bad, err / tol, 0)))
-                v(f"{name}:{what}:inaccurate", f"{int(bad.sum())} inputs; worst x={x[i]!r} ({case['dtype']}): got {got[i]:.9g}, exact {ref[i]:.9g}, allowed error {tol[i]:.3g}")
-        return {"nontrivial": True, "outcome": "ok", "violations": viol, "n": int(x.size)}
+        xall = xs_for(case); op = case["op"]
+        # the whole set in one tensor, and (quantised mode) each magnitude band on its own: a kernel may choose its code path from
+        # the largest entry of the tensor it is handed, so the bands 88 < |x| < 709 etc. must also be seen WITHOUT larger neighbours
+        parts = [xall]
+        if case["mode"] != "all":
+            edges = [0.0, 1.0, 10.0, 44.0, 88.0, 104.0, 355.0, 709.0, 746.0, 1e3, 1.0001e4]
+            a = np.abs(xall.astype(np.float64))
+            for lo_, hi_ in zip(edges[:-1], edges[1:]):
+                for sgn in (1, -1):
+                    sel = (a >= lo_) & (a < hi_) & ((xall > 0) if sgn > 0 else (xall <= 0))
+                    if sel.any(): parts.append(xall[sel])
+        for x in parts:
+            if any(vv["kind"].endswith(("nonfinite", "inaccurate")) for vv in viol): break
+            T = sg.Tensor(x.copy(), requires_grad=True)
+            if op == "bce_logits":
+                tg = np.full(x.shape, case["target"], dtype=x.dtype)
+                y = F.binary_cross_entropy_with_logits(T, sg.Tensor(tg))
+                rv, rd = ref_unary(op, x, float(case["target"]))
+            else:
+                y = getattr(F, op)(T); rv, rd = ref_unary(op, x)
+            y.backward(sg.Tensor(np.ones(x.shape, dtype=x.dtype)))
+            val = np.asarray(y.data, dtype=np.float64); grd = np.asarray(T.grad.data, dtype=np.float64)
+            tol = TOLF * np.maximum(1.0, np.abs(x.astype(np.float64)))
+            name = op + ("" if case["target"] is None else f"[t={case['target']}]")
+            for what, got, ref in (("forward", val, rv), ("backward", grd, rd)):
+                bad = ~np.isfinite(got)
+                if bad.any():
+                    i = int(np.argmax(bad)); v(f"{name}:{what}:nonfinite", f"{int(bad.sum())} inputs; e.g. x={x[i]!r} ({case['dtype']}) -> {got[i]}, exact {ref[i]:.9g}")
+                err = np.abs(got - ref)
+                if what == "backward" and op == "selu":
+                    err = np.where(x == 0, 0.0, err)        # kink at 0: any slope between the one-sided derivatives
+                    lo, hi = SCALE * min(1.0, ALPHA), SCALE * max(1.0, ALPHA)
+                    z = (x == 0) & np.isfinite(got)
+                    if z.any() and (np.any(got[z] < lo - 1e-6) or np.any(got[z] > hi + 1e-6)):
+                        v(f"{name}:backward:not-a-subgradient-at-0", f"slope {got[z][0]} outside [{lo},{hi}]")
+                bad = np.isfinite(got) & (err > tol)
+                if bad.any():
+                    i = int(np.argmax(np.where(bad, err / tol, 0)))
+                    v(f"{name}:{what}:inaccurate", f"{int(bad.sum())} inputs; worst x={x[i]!r} ({case['dtype']}): got {got[i]:.9g}, exact {ref[i]:.9g}, allowed error {tol[i]:.3g}")
+        return {"nontrivial": True, "outcome": "ok", "violations": viol, "n": int(xall.size)}
     # ---- rows
     L, op, dt, form = case["L"], case["op"], np.dtype(case["dtype"]).type, case["form"]
     rows = np.array(list(itertools.product(GRID, repeat=L)), dtype=dt)
